@@ -35,6 +35,7 @@ def work(args):
     chunk, prop, versions, repo, extra = args
     from harness import preds
     from parso.utils import parse_version_string
+    mod = None
     if prop in preds.CHECKS:
         fn = preds.CHECKS[prop]
     else:
@@ -74,7 +75,11 @@ def work(args):
                         d['detail'] = f.detail[:500]
                         d['version'] = v
                         d['inp_truncated'] = False
-    return evals, shapes, fails, samples
+    stats = dict(getattr(mod, 'STATS', {}) or {}) if mod is not None else {}
+    if mod is not None and hasattr(mod, 'STATS'):
+        for k in mod.STATS:
+            mod.STATS[k] = 0
+    return evals, shapes, fails, samples, stats
 
 
 def main():
@@ -106,7 +111,10 @@ def main():
     fails = {}
     samples = []
     with mp.Pool(a.procs) as pool:
-        for e, s, f, sm in pool.imap_unordered(work, jobs, chunksize=1):
+        pstats = {}
+        for e, s, f, sm, ps in pool.imap_unordered(work, jobs, chunksize=1):
+            for k, v in ps.items():
+                pstats[k] = pstats.get(k, 0) + v
             evals += e
             shapes |= s
             if len(samples) < 8:
@@ -122,7 +130,7 @@ def main():
                     fails[k] = d
     exh_total = scope.exh_count(len(scope.ALPHA[alpha]), a.n) if alpha else 0
     res = dict(prop=a.prop, evaluations=evals, distinct_nontrivial=len(shapes), samples=samples[:8],
-               failures=list(fails.values()), wall_s=round(time.time() - t0, 2),
+               failures=list(fails.values()), wall_s=round(time.time() - t0, 2), pred_stats=pstats,
                scope=dict(alphabet=alpha, atoms=scope.ALPHA.get(alpha), max_atoms=a.n, exhaustive_programs=exh_total,
                           random_programs=a.rnd, template_programs=a.tpl, versions_exhaustive=versions,
                           versions_random=rv, corpus_files=0 if a.no_files else len(scope.corpus_files(a.repo)),
